@@ -795,7 +795,7 @@ def proofs():
     import re
     res = []
     bad = 0
-    for mod in ("RegionLemma", "GapLemma", "LoopLemmas", "WitnessLemma"):
+    for mod in ("RegionLemma", "GapLemma", "LoopLemmas", "WitnessLemma", "RefineLemma"):
         p = subprocess.run(["timeout", "900", "tlapm", "--threads", "8", "--cleanfp", mod + ".tla"], cwd=SPEC,
                            stdout=subprocess.PIPE, stderr=subprocess.STDOUT, text=True)
         m = re.search(r"All (\d+) obligations? proved", p.stdout)
